@@ -434,7 +434,7 @@ func init() {
 			{Entry: "VerifC11Driver", Params: map[string]int{"N": 2, "L": 2}, Covers: c11covers, DiffRuns: 60},
 			// OPS 793 = insert|clone|iter|commit|branch|get... : insert(1) delete(2) clone(8) branch(256): clones and kept versions that are written through later
 			{Entry: "VerifC11Driver", Params: map[string]int{"N": 4, "L": 1, "OPS": 1 | 2 | 8 | 256}, Covers: []string{"C11.branched", "C11.kept-version-compared", "C11.end"}, DiffRuns: 20},
-		}, fanRuns([]int{4, 5, 16, 17, 48, 49}, 1, nil)...),
+		}, append(fanRuns([]int{4, 5, 16, 17, 48, 49}, 1, nil), append(fanRuns([]int{5, 17, 49}, 1, map[string]int{"INNERLEAF": 1}), fanRuns([]int{2, 4}, 2, map[string]int{"INNERLEAF": 1, "KTAIL": 1, "QTAIL": 0})...)...)...),
 		Thorough: append(append(append([]HarnessRun{
 			{Entry: "VerifC11Driver", Params: map[string]int{"N": 3, "L": 2}, Covers: c11covers, DiffRuns: 100},
 			{Entry: "VerifC11Driver", Params: map[string]int{"N": 4, "L": 1}, Covers: c11covers, DiffRuns: 100},
@@ -455,7 +455,7 @@ func init() {
 	}
 	reg(&CheckSpec{
 		ID: "C12", PkgDir: "part",
-		Quick:    []HarnessRun{w(1, 2, 1, 0, 0), w(1, 2, 1, 1, 0), w(2, 1, 1, 0, 1), w(1, 1, 2, 0, 0), w(1, 1, 2, 1, 0), preset(1, 1), preset(2, 1), preset(4, 1)},
+		Quick:    []HarnessRun{w(1, 2, 1, 0, 0), w(1, 2, 1, 1, 0), w(2, 1, 1, 0, 1), w(1, 1, 2, 0, 0), w(1, 1, 2, 1, 0), preset(1, 1), preset(2, 1), preset(4, 1), preset(5, 1)},
 		Thorough: []HarnessRun{w(2, 2, 1, 0, 0), w(2, 2, 1, 1, 1), w(2, 1, 2, 0, 1), w(2, 1, 2, 1, 0), w(1, 2, 2, 0, 0), preset(1, 2), preset(2, 1), preset(3, 1), preset(4, 2)},
 		Outside:  []string{"outside: trees deeper than the keys of length <= L allow; more than N1 pre-state keys and N2 later operations; channels of write-transaction queries"},
 	})
@@ -600,6 +600,8 @@ func init() {
 			{Entry: "VerifKFCommitDropsNewTable"},
 			{Entry: "VerifC10Threads", Params: map[string]int{"T": 2, "LISTMAX": 3, "KINDMAX": 0}, Covers: []string{"C10.end"}, NoNative: true, Preempt: 1, Deadlock: true},
 			{Entry: "VerifC10Threads", Params: map[string]int{"T": 2, "LISTMAX": 1, "KINDMAX": 2}, Covers: []string{"C10.end"}, NoNative: true, Preempt: 1, Budget2: 3, Deadlock: true},
+			// every atomic / unlock / channel operation is a scheduling point: two committers on disjoint tables
+			{Entry: "VerifC10Threads", Params: map[string]int{"T": 2, "LISTMAX": 1, "KINDMAX": 0, "COMMITONLY": 1}, Covers: []string{"C10.end"}, NoNative: true, Preempt: 2, Budget2: 2, Deadlock: true},
 		},
 		Thorough: []HarnessRun{
 			{Entry: "VerifC10Threads", Params: map[string]int{"T": 3, "LISTMAX": 1, "KINDMAX": 2}, Covers: []string{"C10.end"}, NoNative: true, Preempt: 1, Budget2: 3, Deadlock: true},
@@ -687,6 +689,7 @@ func init() {
 	base := map[string]int{"R": 2, "KEYS": 2, "W": 2, "F": 2, "INJECT": 1}
 	two := map[string]int{"R": 2, "KEYS": 1, "W": 2, "F": 2, "INJECT": 1, "TWO": 1}
 	batch := map[string]int{"R": 2, "KEYS": 2, "W": 2, "F": 2, "INJECT": 0, "BATCH": 1}
+	sset := map[string]int{"R": 2, "KEYS": 1, "W": 2, "F": 1, "INJECT": 1, "STATUSSET": 1}
 	rs1 := map[string]int{"R": 2, "KEYS": 2, "W": 2, "F": 1, "INJECT": 0, "ROUNDSIZE": 1, "K": 5}
 	big := map[string]int{"R": 3, "KEYS": 2, "W": 3, "F": 3, "INJECT": 1}
 	big2 := map[string]int{"R": 3, "KEYS": 1, "W": 3, "F": 3, "INJECT": 1, "TWO": 1}
@@ -700,7 +703,7 @@ func init() {
 		Known:    []KnownProbe{{ID: "KF-retry-status-lost", Entry: "VerifKFRetryStatusLost"}},
 		Outside:  outside})
 	reg(&CheckSpec{ID: "C15", PkgDir: "reconciler",
-		Quick:    []HarnessRun{rounds(15, base), rounds(15, two), rounds(15, batch), probe},
+		Quick:    []HarnessRun{rounds(15, base), rounds(15, two), rounds(15, batch), rounds(15, sset), probe},
 		Thorough: []HarnessRun{rounds(15, big), rounds(15, big2), rounds(15, batch), probe},
 		Outside:  append([]string{"Prune gating (only after Initialized, complete contents) is not exercised: the harness drives incremental.run, not reconcileLoop"}, outside...)})
 	reg(&CheckSpec{ID: "C16", PkgDir: "reconciler",
